@@ -19,7 +19,7 @@ for t, n in ints + flts:
     job("rt_%s_buf_ped" % t, "C01", u, "thorough")
     for r in ("spec", "buf", "ped", "bnd"):
         job("trunc_%s_%s" % (t, r), "C05", u)
-    for w in ("bw", "pw", "bdw"):
+    for w in ("bw", "pw", "bdw", "bdbw"):
         job("cap_%s_%s" % (t, w), "C06", u)
     job("faultw_%s" % t, "C10", u)
     job("faultr_%s" % t, "C10", u)
